@@ -18,10 +18,13 @@ package main
 //	check                                        <- the Lean driver answers with its verdict here
 
 import (
+	"bytes"
 	"crypto/sha1"
 	"encoding/hex"
 	"encoding/json"
 	"fmt"
+	"net/http"
+	"net/http/httptest"
 	"os"
 	"path/filepath"
 	"reflect"
@@ -30,6 +33,7 @@ import (
 
 	jsonpatch "github.com/evanphx/json-patch/v5"
 	openshiftv1 "github.com/openshift/api/apps/v1"
+	admissionv1 "k8s.io/api/admission/v1"
 	appsv1 "k8s.io/api/apps/v1"
 	batchv1 "k8s.io/api/batch/v1"
 	corev1 "k8s.io/api/core/v1"
@@ -43,10 +47,13 @@ import (
 	meshconfig "istio.io/api/mesh/v1alpha1"
 	"istio.io/istio/operator/pkg/render"
 	"istio.io/istio/pilot/pkg/features"
+	"istio.io/istio/pilot/pkg/model"
 	"istio.io/istio/pkg/config/mesh"
+	"istio.io/istio/pkg/config/mesh/meshwatcher"
 	"istio.io/istio/pkg/config/schema/gvk"
 	"istio.io/istio/pkg/kube"
 	"istio.io/istio/pkg/kube/inject"
+	"istio.io/istio/pkg/kube/multicluster"
 	"verifharness/internal/quiet"
 	"verifharness/internal/wire"
 )
@@ -112,6 +119,12 @@ var settings = []setting{
 		m.DefaultConfig.ProxyMetadata["ISTIO_META_TLS_CLIENT_KEY"] = "/etc/identity/client/keys/client-key.pem"
 		m.DefaultConfig.ProxyMetadata["ISTIO_META_DNS_CAPTURE"] = "true"
 	}},
+	{name: "chart-sel", files: []string{"@chart-sel"}},
+	{name: "secrets", files: []string{"hello-image-secrets-in-values.iop.yaml"}},
+	{name: "values-misc", flags: []string{"values.global.logAsJson=true", "values.global.proxy.tracer=zipkin", "values.global.proxy.seccompProfile.type=RuntimeDefault",
+		"values.global.proxy.lifecycle.preStop.exec.command[0]=/bin/true", "values.global.proxy.privileged=true",
+		"values.global.proxy.enableCoreDump=true"}},
+	{name: "compat", flags: []string{"compatibilityVersion=1.27"}},
 	{name: "mesh-misc", flags: []string{"values.global.imagePullPolicy=Always", "values.global.proxy.image=proxyTest"}, mesh: func(m *meshconfig.MeshConfig) {
 		m.DefaultConfig.Tracing = &meshconfig.Tracing{}
 		m.InboundTrafficPolicy = &meshconfig.MeshConfig_InboundTrafficPolicy{Mode: meshconfig.MeshConfig_InboundTrafficPolicy_LOCALHOST}
@@ -120,13 +133,47 @@ var settings = []setting{
 
 type loaded struct {
 	wh         *inject.Webhook
-	cfg        *inject.Config // the Config the webhook decides with
+	cfg        *inject.Config // the Config the webhook really decides with (parsed by the code under test)
+	expect     inject.Config  // what the documentation says this configuration decides with (stated by the harness)
 	native     bool
 	path       string
+	pathEnvs   map[string]string // the variables the inject URL path stands for (stated by the harness)
 	defaulting bool
+	mux        *http.ServeMux // +http: admissions go through the HTTP handler of a Webhook built by NewWebhook
+	err        error          // a rendering that failed is remembered (and reported), not retried per case
 }
 
 const injectPath = "/inject/cluster/c1/net/n1"
+const injectPathEnv = "/inject/:ENV:cluster=c1:ENV:net=n1"
+const injectPathCustom = "/inject/cluster/c1/net/n1/custom/v--slash--w"
+
+// chart-sel: the selectors and the policy travel through the chart values, the rendered ConfigMap and UnmarshalConfig
+func chartSelectors() (never, always []metav1.LabelSelector) {
+	never = []metav1.LabelSelector{{MatchExpressions: []metav1.LabelSelectorRequirement{{Key: "app", Operator: metav1.LabelSelectorOpIn, Values: []string{"web", "db"}}}}}
+	always = []metav1.LabelSelector{{MatchLabels: map[string]string{"version": "v1"}}}
+	return
+}
+
+const chartSelIOP = `apiVersion: install.istio.io/v1alpha1
+kind: IstioOperator
+spec:
+  values:
+    global:
+      proxy:
+        autoInject: disabled
+    sidecarInjectorWebhook:
+      enableNamespacesByDefault: false
+      neverInjectSelector:
+      - matchExpressions:
+        - key: app
+          operator: In
+          values: [web, db]
+      alwaysInjectSelector:
+      - matchLabels:
+          version: v1
+      injectedAnnotations:
+        verif/chart-injected: "yes"
+`
 
 func selectorConfig(cfg *inject.Config) {
 	cfg.NeverInjectSelector = []metav1.LabelSelector{
@@ -147,6 +194,9 @@ var loadedSettings = map[string]*loaded{}
 // do) and builds a Webhook from the resulting injector ConfigMap.
 func loadSetting(name string) (*loaded, error) {
 	if l, ok := loadedSettings[name]; ok {
+		if l.err != nil {
+			return nil, l.err
+		}
 		return l, nil
 	}
 	parts := strings.Split(name, "+")
@@ -156,24 +206,47 @@ func loadSetting(name string) (*loaded, error) {
 			return nil, err
 		}
 		cfg := *base.cfg
-		l := &loaded{native: base.native}
+		l := &loaded{native: base.native, expect: base.expect}
+		http := false
 		for _, m := range parts[1:] {
 			switch m {
 			case "pd":
-				cfg.Policy = inject.InjectionPolicyDisabled
+				cfg.Policy, l.expect.Policy = inject.InjectionPolicyDisabled, inject.InjectionPolicyDisabled
+			case "po":
+				cfg.Policy, l.expect.Policy = "garbage", "garbage"
 			case "sel":
 				selectorConfig(&cfg)
+				selectorConfig(&l.expect)
 			case "path":
-				l.path = injectPath
+				l.path, l.pathEnvs = injectPath, map[string]string{"ISTIO_META_CLUSTER_ID": "c1", "ISTIO_META_NETWORK": "n1"}
+			case "pathenv":
+				l.path, l.pathEnvs = injectPathEnv, map[string]string{"ISTIO_META_CLUSTER_ID": "c1", "ISTIO_META_NETWORK": "n1"}
+			case "pathcustom":
+				l.path, l.pathEnvs = injectPathCustom, map[string]string{"ISTIO_META_CLUSTER_ID": "c1", "ISTIO_META_NETWORK": "n1", "CUSTOM": "v/w"}
 			case "d":
 				l.defaulting = true
+			case "http":
+				http = true
+			case "alias":
+				cfg.Aliases = map[string][]string{"myalias": {inject.SidecarTemplateName}}
+			case "ia":
+				cfg.InjectedAnnotations = map[string]string{"verif/injected": "1"}
+				l.expect.InjectedAnnotations = map[string]string{"verif/injected": "1"}
 			default:
 				return nil, fmt.Errorf("unknown setting modifier %q", m)
 			}
 		}
 		wc := base.wh.GetConfig()
 		l.cfg = &cfg
-		l.wh = inject.VerifNewWebhook(&cfg, wc.Values, wc.MeshConfig, "default")
+		if http {
+			if err := newHTTPWebhook(l, &cfg, wc.Values, wc.MeshConfig); err != nil {
+				l.err = err
+				loadedSettings[name] = l
+				return nil, err
+			}
+		} else {
+			l.wh = inject.VerifNewWebhook(&cfg, wc.Values, wc.MeshConfig, "default")
+		}
 		loadedSettings[name] = l
 		return l, nil
 	}
@@ -189,12 +262,25 @@ func loadSetting(name string) (*loaded, error) {
 	flags := append(append([]string{}, st.flags...), "installPackagePath="+filepath.Join(repoDir(), "manifests"), "profile=empty", "components.pilot.enabled=true")
 	var files []string
 	for _, f := range st.files {
+		if f == "@chart-sel" {
+			tmp := filepath.Join(os.TempDir(), fmt.Sprintf("verif-c19-chart-sel-%d.yaml", os.Getpid()))
+			if err := os.WriteFile(tmp, []byte(chartSelIOP), 0o644); err != nil {
+				return nil, err
+			}
+			defer os.Remove(tmp)
+			files = append(files, tmp)
+			continue
+		}
 		files = append(files, filepath.Join(fixtureDir(), f))
+	}
+	fail := func(err error) (*loaded, error) {
+		loadedSettings[name] = &loaded{err: err}
+		return nil, err
 	}
 	manifests, _, err := render.GenerateManifest(files, flags, false, nil, nil)
 	quiet.Silence()
 	if err != nil {
-		return nil, err
+		return fail(err)
 	}
 	var cfg *inject.Config
 	var vc inject.ValuesConfig
@@ -207,12 +293,12 @@ func loadSetting(name string) (*loaded, error) {
 				vs, _ := data["values"].(string)
 				v, err := inject.NewValuesConfig(vs)
 				if err != nil {
-					return nil, err
+					return fail(err)
 				}
 				vc = v
 				c, err := inject.UnmarshalConfig([]byte(rawConfig))
 				if err != nil {
-					return nil, err
+					return fail(err)
 				}
 				cfg = &c
 			} else if o.GetName() == "istio" && o.GetKind() == gvk.ConfigMap.Kind {
@@ -220,19 +306,24 @@ func loadSetting(name string) (*loaded, error) {
 				meshdata, _ := data["mesh"].(string)
 				m, err := mesh.ApplyMeshConfig(meshdata, mesh.DefaultMeshConfig())
 				if err != nil {
-					return nil, err
+					return fail(err)
 				}
 				mc = m
 			}
 		}
 	}
 	if cfg == nil || mc == nil {
-		return nil, fmt.Errorf("injector or mesh ConfigMap not rendered")
+		return fail(fmt.Errorf("injector or mesh ConfigMap not rendered"))
 	}
 	if st.mesh != nil {
 		st.mesh(mc)
 	}
-	l := &loaded{wh: inject.VerifNewWebhook(cfg, vc, mc, "default"), cfg: cfg, native: st.native}
+	l := &loaded{wh: inject.VerifNewWebhook(cfg, vc, mc, "default"), cfg: cfg, native: st.native, expect: inject.Config{Policy: inject.InjectionPolicyEnabled}}
+	if st.name == "chart-sel" {
+		l.expect.Policy = inject.InjectionPolicyDisabled
+		l.expect.NeverInjectSelector, l.expect.AlwaysInjectSelector = chartSelectors()
+		l.expect.InjectedAnnotations = map[string]string{"verif/chart-injected": "yes"}
+	}
 	loadedSettings[name] = l
 	return l, nil
 }
@@ -369,10 +460,98 @@ type run struct {
 	file              string // fixture file (fixture / kubeinject)
 	l                 *loaded
 	reqNS             string
+	decMeta           *metav1.ObjectMeta // kube-inject: the metadata of the pods per the documented rule (pod template), when it differs from orig
+	via               string             // kube-inject: direct | file | injector
 	orig, once, twice *corev1.Pod
 	origJSON          []byte
 	onceJSON          []byte
 	twiceJSON         []byte
+}
+
+// newHTTPWebhook builds the webhook the way istiod does: NewWebhook over a file watcher (config and values files), so that
+// updateConfig parses them, and registers serveInject on a mux; admissions are then POSTed as AdmissionReview documents.
+func newHTTPWebhook(l *loaded, cfg *inject.Config, values inject.ValuesConfig, mc *meshconfig.MeshConfig) error {
+	dir, err := os.MkdirTemp("", "verif-c19-wh")
+	if err != nil {
+		return err
+	}
+	configBytes, err := yaml.Marshal(cfg)
+	if err != nil {
+		return err
+	}
+	valuesBytes, err := yaml.Marshal(values.Map())
+	if err != nil {
+		return err
+	}
+	cf, vf := filepath.Join(dir, "config"), filepath.Join(dir, "values")
+	if err := os.WriteFile(cf, configBytes, 0o644); err != nil {
+		return err
+	}
+	if err := os.WriteFile(vf, valuesBytes, 0o644); err != nil {
+		return err
+	}
+	watcher, err := inject.NewFileWatcher(cf, vf)
+	if err != nil {
+		return err
+	}
+	store := model.NewFakeStore()
+	env := &model.Environment{Watcher: meshwatcher.NewTestWatcher(mc), ConfigStore: store}
+	env.SetPushContext(&model.PushContext{ProxyConfigs: &model.ProxyConfigs{}})
+	prev := features.EnableNativeSidecars
+	features.EnableNativeSidecars = features.NativeSidecarModeDisabled
+	defer func() { features.EnableNativeSidecars = prev }()
+	mux := http.NewServeMux()
+	wh, err := inject.NewWebhook(inject.WebhookParameters{Watcher: watcher, Env: env, Mux: mux, Revision: "default", MultiCluster: multicluster.NewFakeController()})
+	quiet.Silence()
+	if err != nil {
+		return err
+	}
+	l.wh, l.mux = wh, mux
+	return nil
+}
+
+// admitHTTP: one admission through serveInject.
+func admitHTTP(l *loaded, podJSON []byte, ns string) (patch []byte, message string, err error) {
+	review := admissionv1.AdmissionReview{
+		TypeMeta: metav1.TypeMeta{Kind: "AdmissionReview", APIVersion: "admission.k8s.io/v1"},
+		Request: &admissionv1.AdmissionRequest{
+			UID: "verif", Namespace: ns, Operation: admissionv1.Create,
+			Kind:   metav1.GroupVersionKind{Version: "v1", Kind: "Pod"},
+			Object: runtime.RawExtension{Raw: podJSON},
+		},
+	}
+	body, err := json.Marshal(review)
+	if err != nil {
+		return nil, "", err
+	}
+	path := l.path
+	if path == "" {
+		path = "/inject"
+	}
+	req := httptest.NewRequest(http.MethodPost, path, bytes.NewReader(body))
+	req.Header.Set("Content-Type", "application/json")
+	rec := httptest.NewRecorder()
+	l.mux.ServeHTTP(rec, req)
+	if rec.Code != http.StatusOK {
+		return nil, "", fmt.Errorf("HTTP %d: %s", rec.Code, truncate(rec.Body.String(), 200))
+	}
+	var out admissionv1.AdmissionReview
+	if err := json.Unmarshal(rec.Body.Bytes(), &out); err != nil {
+		return nil, "", fmt.Errorf("response does not decode: %v", err)
+	}
+	if out.Response == nil {
+		return nil, "", fmt.Errorf("response without a response")
+	}
+	if out.Response.UID != "verif" {
+		return nil, "", fmt.Errorf("response for uid %q", out.Response.UID)
+	}
+	if out.Response.Result != nil && out.Response.Result.Message != "" {
+		return nil, out.Response.Result.Message, nil
+	}
+	if !out.Response.Allowed {
+		return nil, "not allowed", nil
+	}
+	return out.Response.Patch, "", nil
 }
 
 func admit(l *loaded, podJSON []byte, ns string) (patched []byte, status string, detail string) {
@@ -388,19 +567,32 @@ func admit(l *loaded, podJSON []byte, ns string) (patched []byte, status string,
 		features.EnableNativeSidecars = features.NativeSidecarModeDisabled
 	}
 	defer func() { features.EnableNativeSidecars = prev }()
-	resp := l.wh.VerifInject(&kube.AdmissionReview{Request: &kube.AdmissionRequest{
-		Object: runtime.RawExtension{Raw: podJSON}, Namespace: ns,
-	}}, l.path)
-	if resp == nil {
-		return nil, "error", "nil response"
+	var patch []byte
+	if l.mux != nil {
+		pb, msg, err := admitHTTP(l, podJSON, ns)
+		if err != nil {
+			return nil, "bad-patch", err.Error()
+		}
+		if msg != "" {
+			return nil, "error", msg
+		}
+		patch = pb
+	} else {
+		resp := l.wh.VerifInject(&kube.AdmissionReview{Request: &kube.AdmissionRequest{
+			Object: runtime.RawExtension{Raw: podJSON}, Namespace: ns,
+		}}, l.path)
+		if resp == nil {
+			return nil, "error", "nil response"
+		}
+		if resp.Result != nil && resp.Result.Message != "" {
+			return nil, "error", resp.Result.Message
+		}
+		patch = resp.Patch
 	}
-	if resp.Result != nil && resp.Result.Message != "" {
-		return nil, "error", resp.Result.Message
-	}
-	if resp.Patch == nil {
+	if patch == nil {
 		return podJSON, "skipped", ""
 	}
-	p, err := jsonpatch.DecodePatch(resp.Patch)
+	p, err := jsonpatch.DecodePatch(patch)
 	if err != nil {
 		return nil, "bad-patch", "patch does not decode: " + err.Error()
 	}
@@ -628,6 +820,50 @@ func runOp(toks []string) *run {
 		r := runPod(toks[1], pod, wire.Dec(toks[2]))
 		r.kind = "pod"
 		return r
+	case "redecide": // redecide <setting> <request ns> <pod json> <change>
+		// The pod is injected for real; the INJECTED pod (status annotation, sidecar and all) is then changed so that the
+		// documented decision becomes "never", and admitted again: the decision must not look at anything but its inputs.
+		if len(toks) != 5 {
+			return &run{status: "unloadable", detail: "bad op"}
+		}
+		pod := &corev1.Pod{}
+		if err := json.Unmarshal([]byte(wire.Dec(toks[3])), pod); err != nil {
+			return &run{status: "unloadable", detail: err.Error()}
+		}
+		ns := wire.Dec(toks[2])
+		first := runPod(toks[1], pod, ns)
+		if first.status != "injected" || first.once == nil {
+			if first.status == "unloadable" || first.status == "crash" || first.status == "bad-patch" {
+				return first
+			}
+			return &run{status: "na", detail: "first admission: " + first.status, l: first.l}
+		}
+		changed := first.once.DeepCopy()
+		switch toks[4] {
+		case "label-false":
+			if changed.Labels == nil {
+				changed.Labels = map[string]string{}
+			}
+			changed.Labels["sidecar.istio.io/inject"] = "false"
+		case "annotation-false":
+			delete(changed.Labels, "sidecar.istio.io/inject")
+			if changed.Annotations == nil {
+				changed.Annotations = map[string]string{}
+			}
+			changed.Annotations["sidecar.istio.io/inject"] = "false"
+		case "namespace-ignored":
+			changed.Namespace = "kube-system"
+		case "request-namespace-ignored":
+			changed.Namespace = ""
+			ns = "kube-public"
+		case "host-network":
+			changed.Spec.HostNetwork = true
+		default:
+			return &run{status: "unloadable", detail: "unknown change"}
+		}
+		r := runPod(toks[1], changed, ns)
+		r.kind = "pod"
+		return r
 	}
 	return &run{status: "unloadable", detail: "unknown op"}
 }
@@ -681,28 +917,114 @@ func runKubeInject(settingName, file string, doc int) *run {
 	return runKubeInjectObject(settingName, obj)
 }
 
-// runKubeInjectPod: a generated pod, bare or wrapped into a Deployment of namespace wlNS, through kube-inject.
-func runKubeInjectPod(settingName, wrap, wlNS string, pod *corev1.Pod) *run {
+var wrapKinds = []string{"pod", "deployment", "statefulset", "daemonset", "job", "cronjob", "replicaset", "replicationcontroller", "deploymentconfig", "list"}
+
+// wrapPod puts a generated pod into a workload object of the given kind in namespace wlNS.
+func wrapPod(wrap, wlNS string, pod *corev1.Pod) runtime.Object {
+	om := metav1.ObjectMeta{Name: "wl", Namespace: wlNS}
+	tmpl := corev1.PodTemplateSpec{
+		ObjectMeta: metav1.ObjectMeta{Namespace: pod.Namespace, Labels: pod.Labels, Annotations: pod.Annotations},
+		Spec:       pod.Spec,
+	}
 	switch wrap {
 	case "pod":
 		pod.TypeMeta = metav1.TypeMeta{Kind: "Pod", APIVersion: "v1"}
-		return runKubeInjectObject(settingName, pod)
+		return pod
 	case "deployment":
-		d := &appsv1.Deployment{
-			TypeMeta:   metav1.TypeMeta{Kind: "Deployment", APIVersion: "apps/v1"},
-			ObjectMeta: metav1.ObjectMeta{Name: "wl", Namespace: wlNS},
-			Spec: appsv1.DeploymentSpec{Template: corev1.PodTemplateSpec{
-				ObjectMeta: metav1.ObjectMeta{Namespace: pod.Namespace, Labels: pod.Labels, Annotations: pod.Annotations},
-				Spec:       pod.Spec,
-			}},
-		}
-		return runKubeInjectObject(settingName, d)
+		return &appsv1.Deployment{TypeMeta: metav1.TypeMeta{Kind: "Deployment", APIVersion: "apps/v1"}, ObjectMeta: om, Spec: appsv1.DeploymentSpec{Template: tmpl}}
+	case "statefulset":
+		return &appsv1.StatefulSet{TypeMeta: metav1.TypeMeta{Kind: "StatefulSet", APIVersion: "apps/v1"}, ObjectMeta: om, Spec: appsv1.StatefulSetSpec{Template: tmpl}}
+	case "daemonset":
+		return &appsv1.DaemonSet{TypeMeta: metav1.TypeMeta{Kind: "DaemonSet", APIVersion: "apps/v1"}, ObjectMeta: om, Spec: appsv1.DaemonSetSpec{Template: tmpl}}
+	case "replicaset":
+		return &appsv1.ReplicaSet{TypeMeta: metav1.TypeMeta{Kind: "ReplicaSet", APIVersion: "apps/v1"}, ObjectMeta: om, Spec: appsv1.ReplicaSetSpec{Template: tmpl}}
+	case "job":
+		return &batchv1.Job{TypeMeta: metav1.TypeMeta{Kind: "Job", APIVersion: "batch/v1"}, ObjectMeta: om, Spec: batchv1.JobSpec{Template: tmpl}}
+	case "cronjob":
+		return &batchv1.CronJob{TypeMeta: metav1.TypeMeta{Kind: "CronJob", APIVersion: "batch/v1"}, ObjectMeta: om,
+			Spec: batchv1.CronJobSpec{Schedule: "* * * * *", JobTemplate: batchv1.JobTemplateSpec{Spec: batchv1.JobSpec{Template: tmpl}}}}
+	case "replicationcontroller":
+		return &corev1.ReplicationController{TypeMeta: metav1.TypeMeta{Kind: "ReplicationController", APIVersion: "v1"}, ObjectMeta: om,
+			Spec: corev1.ReplicationControllerSpec{Template: &tmpl}}
+	case "deploymentconfig":
+		return &openshiftv1.DeploymentConfig{TypeMeta: metav1.TypeMeta{Kind: "DeploymentConfig", APIVersion: "apps.openshift.io/v1"}, ObjectMeta: om,
+			Spec: openshiftv1.DeploymentConfigSpec{Template: &tmpl}}
+	case "list":
+		d := &appsv1.StatefulSet{TypeMeta: metav1.TypeMeta{Kind: "StatefulSet", APIVersion: "apps/v1"}, ObjectMeta: om, Spec: appsv1.StatefulSetSpec{Template: tmpl}}
+		raw, _ := json.Marshal(d)
+		return &corev1.List{TypeMeta: metav1.TypeMeta{Kind: "List", APIVersion: "v1"}, Items: []runtime.RawExtension{{Raw: raw}}}
 	}
-	return &run{status: "unloadable", detail: "unknown wrap"}
+	return nil
 }
 
-func runKubeInjectObject(settingName string, obj runtime.Object) (r *run) {
-	r = &run{}
+// runKubeInjectPod: a generated pod in a workload object of any kind, through kube-inject.
+// wrap is `<kind>[@file|@injector]`: @file goes through IntoResourceFile (YAML in, YAML out), @injector through the
+// `injector != nil` branch of IntoObject with an Injector that asks the webhook of the same configuration.
+func runKubeInjectPod(settingName, wrap, wlNS string, pod *corev1.Pod) *run {
+	kind, via := wrap, "direct"
+	if i := strings.Index(wrap, "@"); i >= 0 {
+		kind, via = wrap[:i], wrap[i+1:]
+	}
+	obj := wrapPod(kind, wlNS, pod)
+	if obj == nil {
+		return &run{status: "unloadable", detail: "unknown wrap " + wrap}
+	}
+	return runKubeInjectObjectVia(settingName, obj, via)
+}
+
+// unwrapList returns the single workload inside a List (as an object), else the object itself.
+func unwrapList(obj runtime.Object) runtime.Object {
+	l, ok := obj.(*corev1.List)
+	if !ok || len(l.Items) == 0 {
+		return obj
+	}
+	if o, ok := l.Items[0].Object.(runtime.Object); ok && o != nil {
+		return o
+	}
+	o, err := inject.FromRawToObject(l.Items[0].Raw)
+	if err != nil {
+		return obj
+	}
+	return o
+}
+
+// podTemplateMeta: the metadata the pods of the workload will carry (documented rule), where that is not what templateOf
+// observes: a CronJob's pods carry spec.jobTemplate.spec.template.metadata.
+func podTemplateMeta(obj runtime.Object) *metav1.ObjectMeta {
+	if cj, ok := unwrapList(obj).(*batchv1.CronJob); ok {
+		m := cj.Spec.JobTemplate.Spec.Template.ObjectMeta.DeepCopy()
+		return m
+	}
+	return nil
+}
+
+// whInjector is an inject.Injector that asks the webhook of the same configuration, as `istioctl kube-inject` does with a
+// running injector.
+type whInjector struct{ l *loaded }
+
+func (w whInjector) Inject(pod *corev1.Pod, namespace string) ([]byte, error) {
+	b, err := json.Marshal(pod)
+	if err != nil {
+		return nil, err
+	}
+	resp := w.l.wh.VerifInject(&kube.AdmissionReview{Request: &kube.AdmissionRequest{Object: runtime.RawExtension{Raw: b}, Namespace: namespace}}, "")
+	if resp == nil {
+		return nil, fmt.Errorf("nil response")
+	}
+	if resp.Result != nil && resp.Result.Message != "" {
+		return nil, fmt.Errorf("%s", resp.Result.Message)
+	}
+	return resp.Patch, nil
+}
+
+func (w whInjector) GetKubeClient() kube.Client { return nil }
+
+func runKubeInjectObject(settingName string, obj runtime.Object) *run {
+	return runKubeInjectObjectVia(settingName, obj, "direct")
+}
+
+func runKubeInjectObjectVia(settingName string, obj runtime.Object, via string) (r *run) {
+	r = &run{via: via}
 	defer func() {
 		if e := recover(); e != nil {
 			r.status, r.detail = "crash", fmt.Sprint(e)
@@ -715,9 +1037,10 @@ func runKubeInjectObject(settingName string, obj runtime.Object) (r *run) {
 	}
 	r.l = l
 	// namespace of the workload object (the documented namespace of its pods when the template names none)
-	if acc, err := apimeta.Accessor(obj); err == nil {
+	if acc, err := apimeta.Accessor(unwrapList(obj)); err == nil {
 		r.reqNS = acc.GetNamespace()
 	}
+	r.decMeta = podTemplateMeta(obj)
 	prev := features.EnableNativeSidecars
 	features.EnableNativeSidecars = features.NativeSidecarModeDisabled
 	if l.native {
@@ -726,7 +1049,23 @@ func runKubeInjectObject(settingName string, obj runtime.Object) (r *run) {
 	defer func() { features.EnableNativeSidecars = prev }()
 	wc := l.wh.GetConfig()
 	into := func(in runtime.Object) (runtime.Object, error) {
-		out, err := inject.IntoObject(nil, wc.Templates, wc.Values, "", wc.MeshConfig, in, func(string) {})
+		var injector inject.Injector
+		if via == "injector" {
+			injector = whInjector{l}
+		}
+		if via == "file" {
+			y, err := yaml.Marshal(in)
+			if err != nil {
+				return nil, err
+			}
+			var buf bytes.Buffer
+			if err := inject.IntoResourceFile(nil, wc.Templates, wc.Values, "", wc.MeshConfig, bytes.NewReader(y), &buf, func(string) {}); err != nil {
+				return nil, err
+			}
+			doc := strings.TrimSuffix(strings.TrimSpace(buf.String()), "---")
+			return inject.FromRawToObject([]byte(doc))
+		}
+		out, err := inject.IntoObject(injector, wc.Templates, wc.Values, "", wc.MeshConfig, in, func(string) {})
 		if err != nil {
 			return nil, err
 		}
@@ -737,7 +1076,7 @@ func runKubeInjectObject(settingName string, obj runtime.Object) (r *run) {
 		return o, nil
 	}
 	norm := func(o runtime.Object) (*corev1.Pod, []byte) {
-		p := templateOf(o)
+		p := templateOf(unwrapList(o))
 		if p == nil {
 			return nil, nil
 		}
@@ -843,10 +1182,14 @@ func execInject(in, out string) {
 		if toks[0] == "kubeinject-pod" && len(toks) == 5 {
 			src = []string{"kubeinject-pod", toks[1], toks[2], toks[3], "json:" + digest(toks[4])}
 		}
+		if toks[0] == "redecide" && len(toks) == 5 {
+			src = []string{"redecide", toks[1], toks[2], "json:" + digest(toks[3]), toks[4]}
+		}
 		o.Line(append([]string{"src"}, src...)...)
-		if r.orig != nil && r.l != nil && r.status != "unloadable" {
+		if r.orig != nil && r.l != nil && r.status != "unloadable" && r.status != "na" {
 			writeDecisionInputs(o, decisionInputs(r))
 			o.Line("refusal", refusalExpectation(r))
+			o.Line("feat", wire.EncList(features_(r)))
 		}
 		if r.orig != nil && r.status != "unloadable" {
 			writePod(o, "orig", r.orig)
@@ -867,6 +1210,84 @@ func execInject(in, out string) {
 	}
 }
 
+// features_ names what this case exercises (coverage counters in the evidence).
+func features_(r *run) []string {
+	var f []string
+	add := func(c bool, n string) {
+		if c {
+			f = append(f, n)
+		}
+	}
+	p := r.orig
+	all := append(append([]corev1.Container{}, p.Spec.Containers...), p.Spec.InitContainers...)
+	hasProbe, hasPostStart, hasPreStop, userProxy, userProxyInit, userInit, nativeUser := false, false, false, false, false, false, false
+	for _, c := range all {
+		if c.ReadinessProbe != nil || c.LivenessProbe != nil || c.StartupProbe != nil {
+			hasProbe = true
+		}
+		if c.Lifecycle != nil && c.Lifecycle.PostStart != nil {
+			hasPostStart = true
+		}
+		if c.Lifecycle != nil && c.Lifecycle.PreStop != nil {
+			hasPreStop = true
+		}
+		if c.Name == inject.ProxyContainerName {
+			userProxy = true
+		}
+		if c.Name == inject.InitContainerName || c.Name == inject.ValidationContainerName {
+			userInit = true
+		}
+		if c.RestartPolicy != nil {
+			nativeUser = true
+		}
+	}
+	for _, c := range p.Spec.InitContainers {
+		if c.Name == inject.ProxyContainerName {
+			userProxyInit = true
+		}
+	}
+	_, ov := p.Annotations[annotation.ProxyOverrides.Name]
+	_, st := p.Annotations[annotation.SidecarStatus.Name]
+	_, tm := p.Annotations["inject.istio.io/templates"]
+	add(hasProbe, "probes")
+	add(hasPostStart, "postStart")
+	add(hasPreStop, "preStop")
+	add(userProxy, "user-istio-proxy")
+	add(userProxyInit, "user-istio-proxy-in-initContainers")
+	add(userInit, "user-istio-init")
+	add(nativeUser, "user-native-sidecar")
+	add(ov, "overrides-annotation")
+	add(st, "status-annotation")
+	add(tm, "templates-annotation")
+	add(strings.Contains(p.Annotations["inject.istio.io/templates"], ","), "multi-template")
+	add(len(p.Spec.InitContainers) > 0, "init-containers")
+	add(len(p.Spec.Volumes) > 0, "volumes")
+	add(p.Annotations["prometheus.istio.io/scrape-targets"] != "", "scrape-targets")
+	add(p.Annotations["status.sidecar.istio.io/port"] != "", "status-port-annotation")
+	add(p.Annotations["proxy.istio.io/config"] != "", "proxy-config-annotation")
+	add(p.Labels["topology.istio.io/network"] != "", "network-label")
+	add(p.Spec.HostNetwork, "hostNetwork")
+	add(r.l != nil && r.l.native, "native-mode")
+	add(r.l != nil && r.l.mux != nil, "http-handler")
+	add(r.l != nil && r.l.path != "", "inject-url-path")
+	add(r.l != nil && r.l.defaulting, "api-defaulting")
+	add(r.via == "file", "IntoResourceFile")
+	add(r.via == "injector", "IntoObject-with-injector")
+	if r.once != nil && r.status == "injected" {
+		if sc := inject.FindSidecar(r.once); sc != nil {
+			for _, e := range sc.Env {
+				add(e.Name == "ISTIO_KUBE_APP_PROBERS", "probes-rewritten")
+			}
+		}
+		for _, c := range r.once.Spec.InitContainers {
+			add(c.Name == inject.ProxyContainerName, "sidecar-as-native")
+			add(c.Name == inject.ValidationContainerName, "istio-validation")
+		}
+	}
+	sort.Strings(f)
+	return f
+}
+
 func truncate(s string, n int) string {
 	if len(s) > n {
 		return s[:n]
@@ -884,7 +1305,11 @@ func decisionInputs(r *run) *decideState {
 	st.spec = *r.orig.Spec.DeepCopy()
 	st.meta = *r.orig.ObjectMeta.DeepCopy()
 	if r.kind == "kubeinject" {
-		// documented rule (not the code's view): the namespace of the pod is the template's, else the workload's
+		// documented rule (not the code's view): the pods carry the metadata of the pod template; their namespace is the
+		// template's, else the workload's
+		if r.decMeta != nil {
+			st.meta = *r.decMeta.DeepCopy()
+		}
 		if st.meta.Namespace == "" {
 			st.meta.Namespace = r.reqNS
 		}
@@ -894,7 +1319,8 @@ func decisionInputs(r *run) *decideState {
 	if st.meta.Namespace == "" {
 		st.meta.Namespace = r.reqNS
 	}
-	st.cfg = inject.Config{Policy: r.l.cfg.Policy, NeverInjectSelector: r.l.cfg.NeverInjectSelector, AlwaysInjectSelector: r.l.cfg.AlwaysInjectSelector}
+	// the configuration as the harness stated it (for chart-sel: as written into the chart values), not as the code parsed it
+	st.cfg = inject.Config{Policy: r.l.expect.Policy, NeverInjectSelector: r.l.expect.NeverInjectSelector, AlwaysInjectSelector: r.l.expect.AlwaysInjectSelector}
 	return st
 }
 
@@ -961,7 +1387,7 @@ func refusalExpectation(r *run) string {
 	}
 	names := r.l.cfg.DefaultTemplates
 	aliases := r.l.cfg.Aliases
-	if r.kind == "kubeinject" {
+	if r.kind == "kubeinject" && r.via != "injector" {
 		names, aliases = []string{inject.SidecarTemplateName}, nil
 	}
 	if a, f := r.orig.Annotations["inject.istio.io/templates"]; f {
@@ -1089,13 +1515,73 @@ func preserved(tag string, before, after *corev1.Pod) string {
 	if d := keptVolumes(before.Spec.Volumes, after.Spec.Volumes, names(s.Volumes)); d != "" {
 		return "FAIL " + tag + "-volumes " + wire.Enc(d)
 	}
+	// a container of a reserved name is merged, reordered - but never dropped
+	have := map[string]bool{}
+	for _, c := range append(append([]corev1.Container{}, after.Spec.Containers...), after.Spec.InitContainers...) {
+		have[c.Name] = true
+	}
+	for _, c := range append(append([]corev1.Container{}, before.Spec.Containers...), before.Spec.InitContainers...) {
+		if owned[c.Name] && !have[c.Name] {
+			return "FAIL " + tag + "-reserved " + wire.Enc("vanished:"+c.Name)
+		}
+	}
+	return ""
+}
+
+// statusContent: the sidecar.istio.io/status annotation of the result is a truthful record - every name it lists is in
+// the pod (containers may sit in either list: native sidecars), and everything the pod gained is listed.
+func statusContent(orig, after *corev1.Pod) string {
+	s := statusOf(after)
+	if s == nil {
+		return "FAIL status-content " + wire.Enc("no status annotation")
+	}
+	ctrs, vols := map[string]bool{}, map[string]bool{}
+	for _, c := range append(append([]corev1.Container{}, after.Spec.Containers...), after.Spec.InitContainers...) {
+		ctrs[c.Name] = true
+	}
+	for _, v := range after.Spec.Volumes {
+		vols[v.Name] = true
+	}
+	listed := names(append(append([]string{}, s.Containers...), s.InitContainers...))
+	for n := range listed {
+		if !ctrs[n] {
+			return "FAIL status-content " + wire.Enc("lists container "+n+" which is not in the pod")
+		}
+	}
+	for _, n := range s.Volumes {
+		if !vols[n] {
+			return "FAIL status-content " + wire.Enc("lists volume "+n+" which is not in the pod")
+		}
+	}
+	before := map[string]bool{}
+	for _, c := range append(append([]corev1.Container{}, orig.Spec.Containers...), orig.Spec.InitContainers...) {
+		before[c.Name] = true
+	}
+	for n := range ctrs {
+		if !before[n] && !listed[n] {
+			return "FAIL status-content " + wire.Enc("container "+n+" was added but is not recorded")
+		}
+	}
+	beforeV := map[string]bool{}
+	for _, v := range orig.Spec.Volumes {
+		beforeV[v.Name] = true
+	}
+	lv := names(s.Volumes)
+	for n := range vols {
+		if !beforeV[n] && !lv[n] {
+			return "FAIL status-content " + wire.Enc("volume "+n+" was added but is not recorded")
+		}
+	}
 	return ""
 }
 
 func verdictOf(r *run) string {
 	switch r.status {
 	case "unloadable":
-		return "OK unloadable"
+		// a configuration or an input of the check that does not load is a broken tie, never a pass
+		return "FAIL unloadable " + wire.Enc(truncate(r.detail, 160))
+	case "na":
+		return "OK n/a"
 	case "crash":
 		return "FAIL crash " + wire.Enc(truncate(r.detail, 120))
 	case "bad-patch":
@@ -1136,7 +1622,15 @@ func verdictOf(r *run) string {
 	if v := preserved("preserve-twice", r.orig, r.twice); v != "" {
 		return v
 	}
+	if so := statusOf(r.orig); so == nil || len(so.Containers)+len(so.InitContainers)+len(so.Volumes) == 0 {
+		if v := statusContent(r.orig, r.once); v != "" {
+			return v
+		}
+	}
 	if v := networkExpectation(r); v != "" {
+		return v
+	}
+	if v := configExpectation(r); v != "" {
 		return v
 	}
 	if !jsonEqual(r.onceJSON, r.twiceJSON) {
@@ -1159,8 +1653,8 @@ func networkExpectation(r *run) string {
 	const key = "topology.istio.io/network"
 	want, explicit := r.orig.Labels[key]
 	if !explicit {
-		if strings.HasPrefix(r.l.path, "/inject/") {
-			want = "n1"
+		if n, ok := r.l.pathEnvs["ISTIO_META_NETWORK"]; ok {
+			want = n
 		} else {
 			want = r.l.wh.GetConfig().Values.Struct().GetGlobal().GetNetwork()
 		}
@@ -1171,7 +1665,7 @@ func networkExpectation(r *run) string {
 			return "FAIL network-label " + wire.Enc(fmt.Sprintf("label=%q present=%v want %q", got, has, want))
 		}
 		sc := inject.FindSidecar(p)
-		if sc == nil || !hasTemplate(r, inject.SidecarTemplateName) {
+		if sc == nil || !hasTemplate(r, inject.SidecarTemplateName) || userProxySetsEnv(r.orig, "ISTIO_META_NETWORK") {
 			continue
 		}
 		n, env := 0, ""
@@ -1186,6 +1680,52 @@ func networkExpectation(r *run) string {
 		}
 	}
 	return ""
+}
+
+// configExpectation (oracle only): variables named on the inject URL path reach the sidecar exactly once with their value;
+// the InjectedAnnotations of the configuration are on the injected pod.
+func configExpectation(r *run) string {
+	if r.kind == "kubeinject" || r.l == nil {
+		return ""
+	}
+	for _, p := range []*corev1.Pod{r.once, r.twice} {
+		if sc := inject.FindSidecar(p); sc != nil {
+			for k, want := range r.l.pathEnvs {
+				if k == "ISTIO_META_NETWORK" {
+					continue // networkExpectation (the pod's label has precedence)
+				}
+				n, got := 0, ""
+				for _, e := range sc.Env {
+					if e.Name == k {
+						n++
+						got = e.Value
+					}
+				}
+				if n != 1 || got != want {
+					return "FAIL path-env " + wire.Enc(fmt.Sprintf("%s x%d = %q want %q", k, n, got, want))
+				}
+			}
+		}
+		for k, v := range r.l.expect.InjectedAnnotations {
+			if p.Annotations[k] != v {
+				return "FAIL injected-annotations " + wire.Enc(fmt.Sprintf("%s=%q want %q", k, p.Annotations[k], v))
+			}
+		}
+	}
+	return ""
+}
+
+func userProxySetsEnv(orig *corev1.Pod, name string) bool {
+	for _, c := range append(append([]corev1.Container{}, orig.Spec.Containers...), orig.Spec.InitContainers...) {
+		if c.Name == inject.ProxyContainerName {
+			for _, e := range c.Env {
+				if e.Name == name {
+					return true
+				}
+			}
+		}
+	}
+	return strings.Contains(orig.Annotations[annotation.ProxyOverrides.Name], name)
 }
 
 // hasTemplate: the pod is injected with (exactly) the named template.
@@ -1213,6 +1753,11 @@ func knownClass(r *run) string {
 	// variables whose position the removal / re-append of the cluster variables shifts: the two cluster variables and the
 	// variables the user's own istio-proxy customisation adds (the merge aligns them against the hole the removal leaves)
 	movable := map[string]bool{"ISTIO_META_CLUSTER_ID": true, "ISTIO_META_NETWORK": true}
+	if r.l != nil {
+		for k := range r.l.pathEnvs { // every variable of the URL path is removed and re-appended by updateClusterEnvs
+			movable[k] = true
+		}
+	}
 	userProxy := func(c corev1.Container) {
 		if c.Name != inject.ProxyContainerName {
 			return
